@@ -125,10 +125,13 @@ def generate(seed: int, tier: str = "quick") -> Dict[str, Any]:
                 # the same source text again, possibly in another environment / runner class
                 text = rw.choice(text_pool[pool_key])
             else:
+                callable_hosts = [h for h in host if h != "size"]
                 text = gen.gen_expr(rw, decls, salt=rw.randrange(0, 3),
-                                    host=[h for h in host if h != "size"],
+                                    host=callable_hosts,
                                     size_focus=cfg["size_focus"],
-                                    deep_share=cfg["deep_share"], features=cfg["features"])
+                                    deep_share=cfg["deep_share"],
+                                    # an expression compiled for host functions should call them
+                                    features=cfg["features"] + (["host"] if callable_hosts else []))
                 text_pool.setdefault(pool_key, []).append(text)
             op = {"op": "K", "id": len(asts), "env": e["id"], "text": text, "host": host}
             asts.append({"id": op["id"], "env": e["id"], "host": host, "progd": False,
